@@ -37,6 +37,10 @@ impl Controller for StaticResourceController {
 
         let components = boxed_url_components.unwrap();
 
+        if StaticResourceController::has_parent_directory_segment(&components.path) {
+            return false
+        }
+
         let os_specific_separator : String = FileExt::get_path_separator();
         let os_specific_path = &components.path.replace(SYMBOL.slash, os_specific_separator.as_str());
 
@@ -179,7 +183,17 @@ impl Controller for StaticResourceController {
 //backward compatability
 impl StaticResourceController {
 
+    // a '..' segment would let the path leave the served directory
+    pub fn has_parent_directory_segment(path: &str) -> bool {
+        let path_without_query = path.split(|c| c == '?' || c == '#').next().unwrap_or(path);
+        path_without_query.split(|c| c == '/' || c == '\\').any(|segment| segment == "..")
+    }
+
     pub fn is_matching_request(request: &Request) -> bool {
+        if StaticResourceController::has_parent_directory_segment(&request.request_uri) {
+            return false
+        }
+
         let boxed_static_filepath = FileExt::get_static_filepath(&request.request_uri);
         if boxed_static_filepath.is_err() {
             return false
